@@ -133,14 +133,20 @@ def replay(t):
                 rec["out"], rec["exc"] = "raised", type(e).__name__
                 rec["g"] = {"hubs": [], "hubdocs": [], "nodes": {}, "types": {}, "subclassof": {}, "attrs": {}, "kids": {}, "plist": {}, "vals": {}}
             yield rec
+            shared = None
             for fmt in FORMATS:
-                for entry in ("string", "file"):
+                for entry in ("string", "file", "reused"):
                     rec = {"fam": "rdf", "src": "model", "t": "import", "sub": sub, "ndocs": ndocs, "variant": variant, "docs": dh, "w": w,
                            "out": "ok", "exc": "none", "fmt": fmt, "entry": entry, "imp": []}
                     try:
                         wr = RDFWriter(docs, **kw)
                         if entry == "string":
                             loaded = RDFReader().from_string(wr.get_rdf_str(fmt), fmt)
+                        elif entry == "reused":
+                            # one writer asked for one serialisation after the other
+                            if shared is None:
+                                shared = wr
+                            loaded = RDFReader().from_string(shared.get_rdf_str(fmt), fmt)
                         else:
                             path = os.path.join(d, "out_%s" % fmt.replace("-", ""))
                             for f in os.listdir(d):
